@@ -33,9 +33,16 @@ class _Yielder(ast.NodeTransformer):
         self.names, self.lines, self.points = names, lines, set(points)
         self.mangle, self.locks = mangle, set(locks)
         self.hits = 0
+        self.owner_arg = None
 
     def visit_Attribute(self, node):
         self.generic_visit(node)
+        v = node.value
+        if self.owner_arg and isinstance(v, ast.Call) and isinstance(v.func, ast.Name) and v.func.id == "super":
+            # super().m  ->  the parent's m as the harness sees it: the coroutinised version if the parent's m was transformed
+            return ast.Call(func=ast.Name(id="__vf_super", ctx=ast.Load()),
+                            args=[ast.Name(id="__vf_owner", ctx=ast.Load()), ast.Name(id=self.owner_arg, ctx=ast.Load()), ast.Constant(value=node.attr)],
+                            keywords=[])
         if self.mangle and node.attr.startswith("__") and not node.attr.endswith("__"):
             node.attr = f"_{self.mangle}{node.attr}"          # private names are mangled inside the class body
         return node
@@ -68,7 +75,13 @@ class _Yielder(ast.NodeTransformer):
     def visit_Call(self, node):
         self.generic_visit(node)
         f = node.func
+        if isinstance(f, ast.Name) and f.id == "super" and not node.args and not node.keywords and self.owner_arg:
+            # zero-argument super() needs the __class__ cell of a class body; the method is re-compiled outside one
+            node.args = [ast.Name(id="__vf_owner", ctx=ast.Load()), ast.Name(id=self.owner_arg, ctx=ast.Load())]
+            return node
         nm = f.attr if isinstance(f, ast.Attribute) else (f.id if isinstance(f, ast.Name) else None)
+        if isinstance(f, ast.Call) and isinstance(f.func, ast.Name) and f.func.id == "__vf_super":
+            nm = f.args[2].value                     # super().m(...) after the rewrite above
         if nm in self.names:
             self.hits += 1
             return ast.YieldFrom(value=node)
@@ -105,7 +118,18 @@ def _pp():
     return None
 
 
-def coroutinize(fn, names, glb=None, lines=False, rebind=None, points=(), mangle=None, locks=()):
+SUPER_BODIES = {}       # real class -> {method name: coroutinised function}; filled by whoever builds coroutinised subclasses
+
+
+def _vf_super(owner, obj, name):
+    for base in owner.__mro__[1:]:
+        if name in vars(base):
+            f = SUPER_BODIES.get(base, {}).get(name) or vars(base)[name]
+            return f.__get__(obj, type(obj))
+    raise AttributeError(name)
+
+
+def coroutinize(fn, names, glb=None, lines=False, rebind=None, points=(), mangle=None, locks=(), owner=None):
     src = textwrap.dedent(inspect.getsource(fn))
     tree = ast.parse(src)
     fdef = tree.body[0]
@@ -115,6 +139,8 @@ def coroutinize(fn, names, glb=None, lines=False, rebind=None, points=(), mangle
     if mangle:
         names |= {f"_{mangle}{n}" for n in list(names) if n.startswith("__") and not n.endswith("__")}
     y = _Yielder(names, lines, points, mangle, locks)
+    if owner is not None and fdef.args.args:
+        y.owner_arg = fdef.args.args[0].arg          # `self`
     y.visit(fdef)
     fdef.decorator_list = []
     # make it a generator even if nothing inside yields
@@ -123,6 +149,9 @@ def coroutinize(fn, names, glb=None, lines=False, rebind=None, points=(), mangle
     g = dict(fn.__globals__) if glb is None else glb
     g = dict(g)
     g["__pp"] = _pp
+    if owner is not None:
+        g["__vf_owner"] = owner
+        g["__vf_super"] = _vf_super
     if rebind:
         g.update(rebind)
     ns = {}
